@@ -423,36 +423,6 @@ Notation W := (world A).
 Definition awaiting_state (s : state) (a : Z) : Prop :=
   s = AwaitStatusResponse a \/ s = ClaimToken (StepScanAwaitResponse a).
 
-Definition early_claim (s : state) : Prop := s = ClaimToken StepFirstToken \/ s = ClaimToken StepSecondToken.
-
-Lemma do_claim_token_first_state f now (w : W) f' w' :
-  do_claim_token A f now w = Ok (f', w') -> f_state f = ClaimToken StepFirstToken -> early_claim (f_state f').
-Proof.
-  unfold do_claim_token, assert_entry. intros H Es. rewrite Es in H.
-  cbn [kind_of do_fn_entry state_kind_eqb bind get_claim_token_step] in H.
-  destruct (wait_synchronization_pause f now) as [[f1 wait]| |] eqn:Ew; cbn [bind] in H; try discriminate H.
-  apply wait_sync_same in Ew. destruct Ew as ((_ & _ & _ & _ & Hs1 & _) & _).
-  destruct wait; [injection H as <- <-; left; rewrite Hs1; exact Es|].
-  destruct (phy_send A w _) as [[w1 k]| |]; cbn [bind] in H; try discriminate H.
-  destruct (set_claim_step _ _) as [f2| |] eqn:Es2; cbn [bind] in H; try discriminate H.
-  apply set_claim_step_spec' in Es2. subst f2.
-  match type of H with bind (mark_tx ?fx now k) _ = _ => destruct (mark_tx fx now k) as [f4| |] eqn:Em end; cbn [bind] in H; try discriminate H.
-  injection H as <- <-. apply mark_tx_same in Em. destruct Em as (_ & _ & _ & _ & Hs4 & _). right. rewrite Hs4. reflexivity.
-Qed.
-
-Lemma handle_lost_token_claims f now (w : W) f' w' :
-  handle_lost_token A f now w = Ok (f', w', true) -> early_claim (f_state f').
-Proof.
-  unfold handle_lost_token. intros H.
-  destruct (lba_get_or_insert f now) as [l f0]. destruct (inst_diff now l); cbn [bind] in H; try discriminate H.
-  match type of H with (if ?c then _ else _) = _ => destruct c end; [|discriminate H].
-  match type of H with context [trans A ?a ?b ?c] => destruct (trans A a b c) as [[f1 w1]| |] eqn:Et end; cbn [bind] in H; try discriminate H.
-  apply trans_spec in Et. destruct Et as (s1 & Ht & -> & ->).
-  unfold transition_claim_token in Ht. destruct (assert_kind _ _); cbn [bind] in Ht; try discriminate Ht. injection Ht as <-.
-  destruct (do_claim_token A _ now _) as [[f2 w2]| |] eqn:Ed; cbn [bind] in H; try discriminate H.
-  injection H as <- <- . eapply do_claim_token_first_state; [exact Ed|reflexivity].
-Qed.
-
 Lemma early_claim_not_awaiting s a : early_claim s -> ~ awaiting_state s a.
 Proof. intros [-> | ->] [C|C]; discriminate C. Qed.
 
@@ -465,7 +435,7 @@ Proof.
   { unfold assert_entry in Ea. destruct (f_state f); cbn in Ea; try discriminate Ea; reflexivity. }
   destruct (handle_lost_token A f now w) as [[[f0 w0] d]| |] eqn:Eh; cbn [bind] in H; try discriminate H.
   destruct d.
-  - injection H as <- <-. apply early_claim_not_awaiting. exact (handle_lost_token_claims _ _ _ _ _ Eh).
+  - injection H as <- <-. apply early_claim_not_awaiting. exact (handle_lost_token_claims A _ _ _ _ _ Eh).
   - (* no claim: the kinds of do_listen_token_never_accepts without the claim *)
     intros Haw. apply do_listen_token_never_accepts in H0.
     destruct H0 as [K|[K|[K|(K & _)]]]; destruct Haw as [E|E]; rewrite E in K; try discriminate K.
